@@ -130,6 +130,15 @@ def place(name, size, salt=0):
         b.free(h, big)
         b.log.clear()
         return Placed(dict(_buffer=b, _offset="packed"), b, h, [(a, pre, pa), (c, post, pc)])
+    if name == "grown16":
+        # as "grown", in a buffer whose regions are aligned to 16 bytes: every allocation after an object whose size is
+        # an odd number of slots is preceded by padding
+        b = traced("np", 16, default_alignment=16, grow_step=8)
+        a = b.allocate(11, align=False)
+        pa = poison(11, salt + 1)
+        b.update_from_buffer(a, pa)
+        b.log.clear()
+        return Placed(dict(_buffer=b), b, None, [(a, 11, pa)])
     if name == "grown":
         # small buffer with a live neighbour; the object does not fit, the buffer grows (relocation) during allocate
         b = traced("np", 16, default_alignment=8, grow_step=8)
